@@ -137,7 +137,7 @@ def check_c07(r, ex, stats):
             stats["discard-nonfinite"] += 1  # NaN state: `time >= tottime` never holds; outside the property
         return out
 
-    if r.outcome == "raised" and r.exc_injected:
+    if r.outcome == "raised" and r.exc_injected and tr.classified_by == "identity":
         # interrupted call: the counter still equals the number of full steps committed
         ncommitted = len(tr.full_steps())
         stats["T6-crash"] += 1
